@@ -235,11 +235,46 @@ fn utf8_text(rng: &mut Rng, n: usize) -> Vec<u8> {
     }
     v
 }
+/// byte sequences >= 0x80 a text decoder might treat specially when a string starts with / contains them: the UTF-8 and
+/// UTF-16 byte order marks, lone high bytes, a lone UTF-8 lead byte, a cut-off BOM
+const HIGH_PREFIXES: [&[u8]; 8] = [&[0xef, 0xbb, 0xbf], &[0xff, 0xfe], &[0xfe, 0xff], &[0x80], &[0xff], &[0xe4], &[0xc3], &[0xef, 0xbb]];
+/// n bytes: (mostly no) 7-bit lead, one of HIGH_PREFIXES, then 7-bit text with blanks / CR / LF / TAB, now and then a NUL
+/// (UTF-16 look-alike) or another high byte; with or without terminator
+fn high_then_text(rng: &mut Rng, n: usize) -> Vec<u8> {
+    let mut v = Vec::with_capacity(n + 4);
+    if rng.chance(1, 4) {
+        for _ in 0..rng.range(1, 3) {
+            v.push(rng.range(0x20, 0x7e) as u8);
+        }
+    }
+    v.extend_from_slice(HIGH_PREFIXES[rng.below(HIGH_PREFIXES.len() as u64) as usize]);
+    let style = rng.below(3);
+    while v.len() < n {
+        let r = rng.below(16);
+        if r == 0 {
+            v.push(*rng.pick(&[b'\r', b'\n', b'\t', b' ']));
+        } else if style == 1 && r == 1 {
+            v.push(rng.range(0x80, 0xff) as u8);
+        } else if style == 2 && v.len() % 2 == 1 {
+            v.push(0);
+        } else {
+            v.push(rng.range(0x20, 0x7e) as u8);
+        }
+    }
+    v.truncate(n);
+    if n >= 2 && rng.chance(1, 2) {
+        v[n - 1] = 0;
+    }
+    v
+}
 /// n bytes for a string argument handed to payload_from_args: with / without NUL terminator, embedded NUL, control
 /// and non-UTF-8 bytes
 fn str_bytes(rng: &mut Rng, n: usize, utf8: bool) -> Vec<u8> {
     if n == 0 {
         return vec![];
+    }
+    if rng.chance(1, if utf8 { 8 } else { 4 }) {
+        return high_then_text(rng, n);
     }
     let mut v = match rng.below(6) {
         0 => {
@@ -468,6 +503,64 @@ fn main() {
             }
         }
     }
+    // directed cases: strings whose text is fixed only up to the rendering of their bytes >= 0x80 (ASCII-typed strings with
+    // high bytes, UTF-8-typed strings that are not valid UTF-8): every HIGH_PREFIXES entry at the start / after one 7-bit
+    // character, followed by 7-bit text, with / without terminator, alone and between other arguments, every encoder and
+    // byte order (UTF-8-typed only through payload_from_args: the serde string encoder takes a &str)
+    let mut directed = 0u64;
+    if a.num("--directed", 0) > 0 {
+        let bodies: [&[u8]; 7] = [b"ok", b"AB", b"A\0B", b"a b", b"x\ty\r\nz", b"", b"~ !"];
+        let mut strings: Vec<Vec<u8>> = Vec::new();
+        for pre in HIGH_PREFIXES {
+            for lead in [&b""[..], &b"a"[..]] {
+                for body in bodies {
+                    for term in [true, false] {
+                        let mut v = lead.to_vec();
+                        v.extend_from_slice(pre);
+                        v.extend_from_slice(body);
+                        if term {
+                            v.push(0);
+                        }
+                        strings.push(v);
+                    }
+                }
+            }
+        }
+        for (enc, be) in ENCS {
+            for utf8 in [false, true] {
+                if utf8 && enc == "serde" {
+                    continue;
+                }
+                for (si, sb) in strings.iter().enumerate() {
+                    let s_val = || if utf8 { Val::StrU(sb.clone()) } else { Val::StrA(sb.clone()) };
+                    let placements: Vec<Vec<Val>> = vec![
+                        vec![s_val()],
+                        vec![Val::U8(1), s_val()],
+                        vec![s_val(), Val::Bool(si % 2 == 0)],
+                        vec![Val::U16(513), s_val(), Val::Raw(vec![0xde, 0xad])],
+                        vec![s_val(), Val::StrA(b"\xffz y\0".to_vec())],
+                        vec![Val::StrA(b"a b\0".to_vec()), s_val(), Val::F32(1.5), s_val()],
+                    ];
+                    for (pi, vals) in placements.iter().enumerate() {
+                        if utf8 && pi % 3 != (si % 3) {
+                            continue; // UTF-8-typed: two placements per string
+                        }
+                        let r = run_real(enc, be, vals, None, None);
+                        emit(&mut t, case, "directed", enc, be, "full", 0, vals, &r);
+                        case += 1;
+                        directed += 1;
+                        hit(format!("directed_{}_{}_{}", if utf8 { "strU" } else { "strA" }, enc, if be { "be" } else { "le" }));
+                        if pi == 0 && !utf8 {
+                            hit(format!("strA_{}", if sb.starts_with(&[0xef, 0xbb, 0xbf]) { "starts_efbbbf" }
+                                else if sb.starts_with(&[0xff, 0xfe]) { "starts_fffe" }
+                                else if sb.starts_with(&[0xfe, 0xff]) { "starts_feff" }
+                                else if sb[0] >= 0x80 { "starts_other_high" } else { "high_after_7bit" }));
+                        }
+                    }
+                }
+            }
+        }
+    }
     // seeded random cases: longer sequences, every value class, random truncation / corruption
     let n_random = a.num("--random", 0);
     let n_huge = a.num("--huge", 0);
@@ -542,6 +635,7 @@ fn main() {
         case += 1;
     }
     t.flush();
-    println!("{}", json!({"cases": case, "lines": t.lines, "replayed": replayed, "fast_path": fast, "slow_path": slow + n_random,
+    println!("{}", json!({"cases": case, "lines": t.lines, "replayed": replayed, "fast_path": fast, "slow_path": slow + n_random + directed,
+                          "directed": directed,
                           "drift": drift, "skipped_not_encodable": skipped, "nontrivial_replayed": nontrivial, "hits": hits}));
 }
